@@ -18,7 +18,7 @@ from falcon.response import Response, ResponseOptions  # noqa: E402
 
 import engine.rt as _rt  # noqa: E402
 from engine.envmodels import make_environ, make_scope  # noqa: E402
-from engine.rt import fail  # noqa: E402
+from engine.rt import fail, pick, pickb  # noqa: E402
 from harness.c10 import (REAL_TABLE, RESERVED, STUB_TABLE, UNRESERVED, _ECLS, _ECLS_DESC, _encoders, _fully_escaped,  # noqa: E402
                          is_reserved, is_unreserved, ref_decode)
 
@@ -252,6 +252,25 @@ def _parse_set_cookie(line):
         else:
             attrs[p[:j].lower()] = p[j + 1:]
     return name, value, attrs
+
+
+def cookie_case_menu(ci, value, ma_kind, max_age, secure, by_default, http_only, ssi, partitioned, domain, path, ei, asgi, wins=None):
+    """cookie_case with every argument realized through the solver first (one branch per value: a finite table).  `wins`:
+    code-point windows the characters of `value` are picked from."""
+    if wins is not None:
+        n = pick(len(value), 0, 2)
+        chars = []
+        for i in range(n):
+            o = ord(value[i])
+            for lo, hi in wins:
+                if lo <= o <= hi:
+                    chars.append(chr(pick(o, lo, hi)))
+                    break
+            else:
+                return 2
+        value = ''.join(chars)
+    return cookie_case(ci, value, pick(ma_kind, 0, 3), pick(max_age, 0, 2), pick(secure, 0, 2), pickb(by_default), http_only,
+                       pick(ssi, 0, len(SAMESITE) - 1), partitioned, domain, path, ei, asgi)
 
 
 def cookie_case(ci, value, ma_kind, max_age, secure, by_default, http_only, ssi, partitioned, domain, path, ei, asgi):
@@ -507,21 +526,28 @@ def partitions(tier, seed):
                 CNAMES[ci], ei, bool(flag), bool(1 - flag), dom, pth)
             # (a) the value is free, the option arguments are one fixed combination (rotating with the shape)
             mk, mx, sc, bd, ss = si % 4, (si + 1) % 3, (si + 2) % 3, bool(si % 2), (si * 2 + 1) % len(SAMESITE)
-            L = 1 if q else 2
-            P.append(_part('cookie_val_%s_name%d_exp%d_f%d' % (side, ci, ei, flag), 'value: str', ['len(value) <= %d' % L, VALPRE],
-                           'cookie_case(%d, value, %d, %d, %d, %s, %s)' % (ci, mk, mx, sc, bd, tail % ss), 150 if q else 600,
-                           '%s: value <= %d free characters (cookie-octets or non-ASCII), options fixed at max_age kind %d/%d, secure %r, '
-                           'secure_cookies_by_default %s, same_site %r; Set-Cookie parsed by an RFC 6265 reader and echoed back through '
-                           'Request.cookies.  The value x options cross product is in cookie_joint_* (thorough)' % (
-                               shape, L, mk, mx, [None, True, False][sc], bd, SAMESITE[ss])))
+            L = 2
+            # quick: the free characters come from two short code-point windows (legal 'x'..'~' -- the upper edge of the
+            # cookie-octet range -- and U+0080..U+0083); http.cookies / the cookie parser fork once per distinct character,
+            # so the full alphabet (thorough) does not exhaust within minutes
+            QWIN = "all((120 <= ord(c) <= 126) or (128 <= ord(c) <= 131) for c in value)"
+            P.append(_part('cookie_val_%s_name%d_exp%d_f%d' % (side, ci, ei, flag), 'value: str',
+                           ['len(value) <= %d' % L, QWIN if q else VALPRE],
+                           ('cookie_case_menu(%d, value, %d, %d, %d, %s, %s, wins=((120, 126), (128, 131)))' if q else
+                            'cookie_case(%d, value, %d, %d, %d, %s, %s)') % (ci, mk, mx, sc, bd, tail % ss), 150 if q else 600,
+                           ('%s: value <= %d free characters (%s), options fixed at max_age kind %d/%d, secure %r, '
+                            'secure_cookies_by_default %s, same_site %r; Set-Cookie parsed by an RFC 6265 reader and echoed back through '
+                            'Request.cookies.  The value x options cross product is in cookie_joint_* (thorough)') % (
+                               shape, L, 'code points 120..126 or 128..131' if q else 'cookie-octets or non-ASCII', mk, mx,
+                               [None, True, False][sc], bd, SAMESITE[ss])))
             # (b) the option arguments are free, the value is one of two fixed strings
             P.append(_part('cookie_opt_%s_name%d_exp%d_f%d' % (side, ci, ei, flag),
                            'ma_kind: int, max_age: int, secure: int, by_default: bool, ssi: int',
-                           ['0 <= ma_kind <= 3', '0 <= max_age <= 2', '0 <= secure <= 2', '0 <= ssi < %d' % len(SAMESITE)],
-                           "cookie_case(%d, 'v1', ma_kind, max_age, secure, by_default, %s)" % (ci, tail % 'ssi'),
+                           ['0 <= ma_kind <= 3', '0 <= max_age <= %d' % (1 if q else 2), '0 <= secure <= 2', '0 <= ssi < %d' % len(SAMESITE)],
+                           "cookie_case_menu(%d, 'v1', ma_kind, max_age, secure, by_default, %s)" % (ci, tail % 'ssi'),
                            150 if q else 600,
-                           "%s: value 'v1', max_age int/float/str in 0..2 (0 included), secure tri-state x "
-                           'secure_cookies_by_default, same_site menu of %d; every attribute set against the request' % (shape, len(SAMESITE))))
+                           "%s: value 'v1', max_age int/float/str in 0..%d (0 included), secure tri-state x "
+                           'secure_cookies_by_default, same_site menu of %d; every attribute set against the request' % (shape, 1 if q else 2, len(SAMESITE))))
             if not q:
                 P.append(_part('cookie_joint_%s_name%d_exp%d_f%d' % (side, ci, ei, flag),
                                'value: str, ma_kind: int, max_age: int, secure: int, by_default: bool, ssi: int',
